@@ -461,16 +461,16 @@ impl Prop for ReaderProp {
     fn runs(&self, tier: Tier) -> u64 {
         let dbg = cfg!(debug_assertions);
         match (self.mode, tier, dbg) {
-            (Mode::C02, Tier::Quick, true) => 300_000,
-            (Mode::C02, Tier::Quick, false) => 100_000,
+            (Mode::C02, Tier::Quick, true) => 1_200_000,
+            (Mode::C02, Tier::Quick, false) => 600_000,
             (Mode::C02, Tier::Thorough, true) => 50_000_000,
             (Mode::C02, Tier::Thorough, false) => 30_000_000,
-            (Mode::C09, Tier::Quick, true) => 200_000,
+            (Mode::C09, Tier::Quick, true) => 1_000_000,
             (Mode::C09, Tier::Thorough, true) => 30_000_000,
             (Mode::C09, _, false) => 0,
-            (Mode::C14, Tier::Quick, true) => 300_000,
+            (Mode::C14, Tier::Quick, true) => 1_000_000,
             (Mode::C14, Tier::Thorough, true) => 30_000_000,
-            (Mode::C14, Tier::Quick, false) => 100_000,
+            (Mode::C14, Tier::Quick, false) => 500_000,
             (Mode::C14, Tier::Thorough, false) => 10_000_000,
         }
     }
